@@ -187,11 +187,16 @@ type Exec struct {
 	chooser    Chooser
 	Horizon    int
 	HitHorizon bool
-	LibPrefix  string
-	PoolLIFO   bool
-	Aborted    bool
-	Trace      *strings.Builder // when non-nil every step is described here
-	KeyLast    bool             // include the last-run thread in Key (needed when preemptions are bounded)
+	// Livelock: the horizon was reached while one thread had been taking steps alone for the last 1000 steps or
+	// more - no other thread enabled at any of those points, no timer pending: nothing can ever change what that
+	// thread sees, so it spins for ever (creation site and pending operation of the spinner)
+	Livelock  string
+	solo      int
+	LibPrefix string
+	PoolLIFO  bool
+	Aborted   bool
+	Trace     *strings.Builder // when non-nil every step is described here
+	KeyLast   bool             // include the last-run thread in Key (needed when preemptions are bounded)
 	// DonePriority restricts the exploration to the schedules in which a thread that can take a receive on a
 	// cancelled context's Done channel does so at once. It is used for liveness: under this restriction code
 	// that consults the context whenever it is about to proceed must terminate after cancel; an execution that
@@ -705,8 +710,29 @@ func Run(root func(), ch Chooser, cfg func(*Exec)) *Exec {
 			x.last = nil
 			continue
 		}
+		alone := x.last != nil
+		for _, tr := range ts {
+			alone = alone && tr.t == x.last
+		}
+		if alone {
+			x.solo++
+		} else {
+			x.solo = 0
+		}
 		if x.Steps >= x.Horizon {
 			x.HitHorizon = true
+			if x.solo >= 1000 {
+				timed := false
+				for _, t := range x.Threads {
+					timed = timed || (!t.done && t.pending != nil && t.pending.kind == opSleep)
+				}
+				for _, tm := range x.timers {
+					timed = timed || !tm.fired
+				}
+				if !timed {
+					x.Livelock = x.last.Site + " at " + x.last.pending.String()
+				}
+			}
 			break
 		}
 		cost := make([]int, len(ts))
